@@ -712,6 +712,7 @@ func detectExeType(src []byte, codeStart, codeEnd *int) byte {
 	// Best effort
 	magic := internal.GetMagicType(src)
 	arch := 0
+	maxStart, maxEnd := *codeStart, *codeEnd
 
 	if parseExeHeader(src, magic, &arch, codeStart, codeEnd) == true {
 		if (arch == _EXE_ELF_X86_ARCH) || (arch == _EXE_ELF_AMD64_ARCH) {
@@ -733,6 +734,16 @@ func detectExeType(src []byte, codeStart, codeEnd *int) byte {
 		if arch == _EXE_MAC_ARM64_ARCH {
 			return _EXE_ARM64
 		}
+	}
+
+	// No usable header. The input may not be a valid executable:
+	// do not trust the bounds that may have been extracted from it
+	if *codeStart < maxStart || *codeStart > maxEnd {
+		*codeStart = maxStart
+	}
+
+	if *codeEnd < *codeStart || *codeEnd > maxEnd {
+		*codeEnd = maxEnd
 	}
 
 	jumpsX86 := 0
@@ -841,7 +852,7 @@ func parseExeHeader(src []byte, magic uint, arch, codeStart, codeEnd *int) bool 
 					for i := 0; i < nbEntries; i++ {
 						startEntry := posSection + i*szEntry
 
-						if startEntry+0x28 >= count {
+						if startEntry < 0 || startEntry+0x28 >= count {
 							return false
 						}
 
@@ -866,7 +877,7 @@ func parseExeHeader(src []byte, magic uint, arch, codeStart, codeEnd *int) bool 
 					for i := 0; i < nbEntries; i++ {
 						startEntry := posSection + i*szEntry
 
-						if startEntry+0x18 >= count {
+						if startEntry < 0 || startEntry+0x18 >= count {
 							return false
 						}
 
@@ -896,7 +907,7 @@ func parseExeHeader(src []byte, magic uint, arch, codeStart, codeEnd *int) bool 
 					for i := 0; i < nbEntries; i++ {
 						startEntry := posSection + i*szEntry
 
-						if startEntry+0x28 >= count {
+						if startEntry < 0 || startEntry+0x28 >= count {
 							return false
 						}
 
@@ -921,7 +932,7 @@ func parseExeHeader(src []byte, magic uint, arch, codeStart, codeEnd *int) bool 
 					for i := 0; i < nbEntries; i++ {
 						startEntry := posSection + i*szEntry
 
-						if startEntry+0x18 >= count {
+						if startEntry < 0 || startEntry+0x18 >= count {
 							return false
 						}
 
@@ -968,6 +979,10 @@ func parseExeHeader(src []byte, magic uint, arch, codeStart, codeEnd *int) bool 
 			}
 
 			for cmd < nbCmds {
+				if pos < 0 || pos+8 >= count {
+					return false
+				}
+
 				ldCmd := int(binary.LittleEndian.Uint32(src[pos:]))
 				szCmd := int(binary.LittleEndian.Uint32(src[pos+4:]))
 				szSegHdr := 0x38
@@ -1005,6 +1020,10 @@ func parseExeHeader(src []byte, magic uint, arch, codeStart, codeEnd *int) bool 
 							}
 						}
 					}
+				}
+
+				if szCmd <= 0 {
+					return false
 				}
 
 				cmd++
